@@ -225,6 +225,18 @@ def stepLine (st : St) (line : String) : St × String :=
       let ps := if src.isEmpty then "-" else showList showRat (pl.dst.map (poolP s pl))
       (st, s!"C={showNats cases} trans={tr} P={ps}")
     | _, _, _, _, _ => (st, "bad-op")
+  | ["setbeta", old, new] =>      -- `TimePar.set(v=new)` on a beta whose base value is `old`; `-` = argument not supplied
+    match parseNum? old with
+    | some o =>
+      if new == "-" then (st, showRat (setBase o none))
+      else match parseNum? new with
+        | some x => (st, showRat (setBase o (some x)))
+        | none => (st, "bad-op")
+    | none => (st, "bad-op")
+  | ["scalebeta", old, f] =>      -- `beta *= f` / `beta * f`
+    match parseNum? old, parseNum? f with
+    | some o, some f => (st, showRat (scaleBase o f))
+    | _, _ => (st, "bad-op")
   | ["netbeta", "plain", eb, β] =>
     match parseNum? eb, parseNum? β with
     | some eb, some β => (st, showRat (netBeta .plain { p1 := 0, p2 := 0, beta := eb } β .fwd))
